@@ -72,6 +72,20 @@ def corpus():
                 ", ".join("in interface p%d" % i for i in range(1, 60)) + "); };\n".replace("in interface p0, ", "")))
     out.append(("count_sum_wrap", "struct B { uint64 a; uint64 b; interface o; };\ninterface I { method f(%s); };\n" %
                 ", ".join("in interface[255] a%d" % i for i in range(2))))
+    # every way a method comes to need 16 (or 15) arguments of one class: direct objects, an object
+    # array, objects embedded in a struct argument, discrete buffers, a bundle beside 15 buffers,
+    # outputs; both builds must give the same verdict and the same bytes
+    roster = "struct Roster { " + " ".join("interface o%d;" % i for i in range(9)) + " };\n"
+    for extra in (6, 7):
+        out.append(("limit_struct_objs_in_%d" % (9 + extra), roster + "interface I { method f(in Roster all, %s); };\n" % ", ".join("in interface p%d" % i for i in range(extra))))
+        out.append(("limit_struct_objs_out_%d" % (9 + extra), roster + "interface I { method f(out Roster all, %s); };\n" % ", ".join("out interface p%d" % i for i in range(extra))))
+    for n_ in (15, 16):
+        out.append(("limit_direct_objs_%d" % n_, "interface I { method f(%s); };\n" % ", ".join("in interface p%d" % i for i in range(n_))))
+        out.append(("limit_objarr_%d" % n_, "interface I { method f(in interface[%d] a); };\n" % n_))
+        out.append(("limit_buffers_%d" % n_, "interface I { method f(%s); };\n" % ", ".join("in buffer p%d" % i for i in range(n_))))
+        out.append(("limit_out_buffers_%d" % n_, "interface I { method f(%s); };\n" % ", ".join("out buffer p%d" % i for i in range(n_))))
+        out.append(("limit_buffers_plus_small_%d" % n_, "interface I { method f(%s, in uint32 k); };\n" % ", ".join("in buffer p%d" % i for i in range(n_ - 1))))
+        out.append(("limit_buffers_plus_bundle_%d" % n_, "interface I { method f(%s, in uint32 k, in uint8 j); };\n" % ", ".join("in uint16[] p%d" % i for i in range(n_ - 1))))
     out.append(("comment_in_param", "interface I { method f(in /*c*/ uint32 x); };\n"))
     out.append(("comment_in_array_size", "struct S { uint64[1// c\n] f; };\n"))
     out.append(("nonascii_doc_and_array_size_0", "interface I2 {\n  /**\n   * doc 0\n   \u00e9*/\n  method m3();\n};\nstruct ZA { uint8[0] a; };\n"))
